@@ -2474,23 +2474,21 @@ func runR0710(c *core.Ctx) {
 		})
 		return seen[`"$set"`] && seen[`"$delete"`]
 	}
-	// the functions of the matcher: genericMatches and the module functions it (transitively) hands the path to
+	// the functions of the matcher: genericMatches and the module functions it (transitively) hands the path to; for each,
+	// the parameter that carries the path
+	type item struct {
+		fd   *ast.FuncDecl
+		path types.Object
+	}
 	visited := map[*types.Func]bool{}
-	var work []*ast.FuncDecl
-	work = append(work, fd)
 	self, _ := inf.Defs[fd.Name].(*types.Func)
 	visited[self] = true
+	work := []item{{fd, pathObj}}
 	n, bad := 0, 0
 	for len(work) > 0 {
 		cur := work[0]
 		work = work[1:]
-		var curPath types.Object
-		if cur == fd {
-			curPath = pathObj
-		} else if cur.Type.Params != nil && len(cur.Type.Params.List) >= 2 && len(cur.Type.Params.List[1].Names) == 1 {
-			curPath = inf.Defs[cur.Type.Params.List[1].Names[0]]
-		}
-		ast.Inspect(cur.Body, func(x ast.Node) bool {
+		ast.Inspect(cur.fd.Body, func(x ast.Node) bool {
 			call, ok := x.(*ast.CallExpr)
 			if !ok {
 				return true
@@ -2499,31 +2497,39 @@ func runR0710(c *core.Ctx) {
 			if f == nil || f.Pkg() == nil || !c.M.InModule(f.Pkg()) {
 				return true
 			}
-			passesTail, passesPath := false, false
-			for _, a := range call.Args {
-				if se, ok := core.Unparen(a).(*ast.SliceExpr); ok && core.ObjOf(inf, se.X) == curPath && curPath != nil && se.Low != nil {
-					passesTail = true
-				}
-				if core.ObjOf(inf, a) == curPath && curPath != nil {
-					passesPath = true
-				}
-			}
-			if !passesTail && !passesPath {
+			target := c.M.Decl(f.Origin())
+			if target == nil || target.Body == nil {
 				return true
 			}
-			target := c.M.Decl(f.Origin())
-			if target == nil {
+			passesTail := false
+			var calleePath types.Object
+			k := 0
+			for _, fl := range target.Type.Params.List {
+				for _, nm := range fl.Names {
+					if k < len(call.Args) && cur.path != nil {
+						a := core.Unparen(call.Args[k])
+						if se, ok := a.(*ast.SliceExpr); ok && core.ObjOf(inf, se.X) == cur.path && se.Low != nil {
+							passesTail = true
+							calleePath = inf.Defs[nm]
+						} else if core.ObjOf(inf, a) == cur.path {
+							calleePath = inf.Defs[nm]
+						}
+					}
+					k++
+				}
+			}
+			if calleePath == nil {
 				return true
 			}
 			if !visited[f.Origin()] {
 				visited[f.Origin()] = true
-				work = append(work, target)
+				work = append(work, item{target, calleePath})
 			}
 			if passesTail {
 				n++
 				if !skipsOperators(target.Body) {
 					bad++
-					c.Bad(rel, core.DeclName(cur), fmt.Sprintf("descent #%d re-enters a function that skips $set / $delete", n), call.Pos(),
+					c.Bad(rel, core.DeclName(cur.fd), fmt.Sprintf("descent #%d re-enters a function that skips $set / $delete", n), call.Pos(),
 						"the tail of the path is handed to "+f.Name()+", which never compares the head with the operator constants: nothing below an operator nested deeper than the first segment is matched")
 				}
 			}
